@@ -59,6 +59,9 @@ def _tritem(t):
         return ['from'] + _names(t[1])
     if k == 'to':
         return ['to', t[1]]
+    if k == 'to_list':
+        # `to: [A, B]` is not in the grammar (a target is one identifier): for the model an unparsable entry
+        return ['unknown', 'to_list']
     if k in HOOKS:
         return [HOOK_PREFIX[k]] + _names(t[1])
     return ['unknown', t[1]]
@@ -195,6 +198,8 @@ def to_text(d, rng=None):
                                 parts.append(f'from: {_names_text(t[1], t[2] if len(t) > 2 else True, st)}')
                             elif tk == 'to':
                                 parts.append(f'to: {t[1]}')
+                            elif tk == 'to_list':
+                                parts.append('to: [' + ', '.join(t[1]) + ']')
                             elif tk in HOOKS:
                                 parts.append(f'{tk}: {_names_text(t[1], t[2] if len(t) > 2 else True, st)}')
                             else:
@@ -430,7 +435,8 @@ KEYWORDS = {'as', 'break', 'const', 'continue', 'crate', 'else', 'enum', 'extern
 STATE_WORDS = ['Idle', 'Active', 'Done', 'Open', 'Closed', 'HTTPServer', 'IOError', 'X', 'A', 'B', 'Q', 'S9', 'Run2Go', 'C', 'S', 'T', 'Ok',
                'Err', 'Some', 'None', 'Result', 'Option', 'Default', 'Debug',
                'LaunchPrep', 'In_Flight', 'lower', 'Zed', 'Alpha', 'Beta', 'Gamma', 'Delta', 'K8s', 'Standby', 'Up',
-               'Dn', 'L', 'M', 'N', 'Wait', 'Ready', 'Busy', 'ParseXML', 'Mid', 'Deep', 'Far', 'R2D2', 'Ab', 'AbC']
+               'Dn', 'L', 'M', 'N', 'Wait', 'Ready', 'Busy', 'ParseXML', 'Mid', 'Deep', 'Far', 'R2D2', 'Ab', 'AbC',
+               'ready', 'rr2', 'HalfOpen', 'r_state']
 SUPER_WORDS = ['Flight', 'Group', 'Outer', 'Inner', 'Net', 'P', 'W', 'Zone', 'Core', 'Shell', 'Top', 'Sub', 'GRP', 'Ring1']
 EVENT_WORDS = ['go', 'stop', 'launch', 'land', 'abort', 'tick', 'next', 'reset', 'a', 'b', 'x1', 'set_thrust',
                'enter_half_open', 'e2', 'do_it', 'http_get', 'io', 'step', 'flip', 'ping', 'k_9', 'retry', 'fire',
@@ -820,6 +826,14 @@ def mutations(d, rng):
                 m = _copy(d)
                 m[ei][1][bi][1][ti] = ('transition', [('from', [], True) if t[0] == 'from' else t for t in e[1]])
                 out.append(('R9-transition-empty-from', m))
+                # R9 a target that is a list (the grammar has one identifier)
+                tgt = [t[1] for t in e[1] if t[0] == 'to']
+                if tgt:
+                    other = rng.choice(leaves)
+                    for lst in ([tgt[-1], other], [other, tgt[-1]], ['Nowhere', tgt[-1]], [tgt[-1]]):
+                        m = _copy(d)
+                        m[ei][1][bi][1][ti] = ('transition', [('to_list', lst) if t[0] == 'to' else t for t in e[1]])
+                        out.append(('R9-target-list', m))
                 # R10 undeclared source / target
                 m = _copy(d)
                 m[ei][1][bi][1][ti] = ('transition', [('to', 'Nowhere') if t[0] == 'to' else t for t in e[1]])
